@@ -408,7 +408,7 @@ func (g *gen) drawType(ctx typeCtx, label string) *typ {
 			}
 		}
 	}
-	wTD, wIdref, wRef, wUnion, wEmpty, wBin := 14, 8, 8, 9, 3, 3
+	wTD, wIdref, wRef, wUnion, wEmpty, wBin := 14, 8, 18, 9, 3, 3
 	if len(tds) == 0 {
 		wTD = 0
 	}
